@@ -65,17 +65,30 @@ def make_case(rng, tier, damage, max_damage=4):
     case = {"files": [(rel, b.token()) for rel, b in files], "pl": pl, "version": version,
             "single": single, "source": source, "creator": rng.choice(creator),
             "via_parent": rng.random() < 0.5, "damage": []}
-    if damage:
+    if version == 1 and source == "ref" and not single and rng.random() < 0.5:
+        order = [rel for rel, _ in files]
+        rng.shuffle(order)
+        case["v1_order"] = order
+    if damage and source == "ref-nolen" and len(files[0][1]) > 2 * pl and rng.random() < 0.7:
+        whole = (len(files[0][1]) // pl) * pl
+        to = rng.choice([whole - pl, whole] if whole < len(files[0][1]) else [whole - pl])
+        if any(files[0][1].bytes()[to:]):
+            case["damage"] = [["trunc", files[0][0], to]]
+    elif damage:
         case["damage"] = make_damage(rng, files, pl, version, single,
-                                     rng.randrange(1, max_damage + 1))
+                                     rng.randrange(1, max_damage + 1), case.get("v1_order"),
+                                     zero_ok=case.get("zero_ok", False))
     return case
 
 
-def ordered(files, version):
+def ordered(files, version, v1_order=None):
+    if version == 1 and v1_order:
+        by = dict(files)
+        return [(rel, by[rel]) for rel in v1_order]
     return gen.utf8_sorted(files) if version == 1 else gen.v2_sorted(files)
 
 
-def make_damage(rng, files, pl, version, single, count):
+def make_damage(rng, files, pl, version, single, count, v1_order=None, zero_ok=False):
     """Damage operations whose affected *pieces* each lose or change a non-zero described
     byte (the property excludes absent all-zero regions)."""
     ops = []
@@ -87,9 +100,9 @@ def make_damage(rng, files, pl, version, single, count):
         rel = rng.choice(sorted(state))
         data = orig[rel]
         cur = state[rel]
-        if not data:
+        if not data and not zero_ok:
             continue
-        kind = rng.choice(["flip", "flip", "trunc", "trunc", "remove"])
+        kind = rng.choice(["flip", "flip", "trunc", "trunc", "remove"]) if data else "remove"
         if kind == "flip":
             if cur is None or not cur:
                 continue
@@ -115,14 +128,14 @@ def make_damage(rng, files, pl, version, single, count):
             op = ["remove", rel]
         trial = dict(state)
         trial[rel] = new
-        if not absent_regions_nonzero(files, orig, trial, pl, version, single):
+        if not zero_ok and not absent_regions_nonzero(files, orig, trial, pl, version, single, v1_order):
             continue
         state = trial
         ops.append(op)
     return ops
 
 
-def absent_regions_nonzero(files, orig, state, pl, version, single):
+def absent_regions_nonzero(files, orig, state, pl, version, single, v1_order=None):
     """For every piece (v1 stream view and per-file view) that an absent range touches, the
     absent range within that piece must contain a non-zero described byte."""
     # per-file view
@@ -136,7 +149,7 @@ def absent_regions_nonzero(files, orig, state, pl, version, single):
             if lo < hi and not any(data[lo:hi]):
                 return False
     # v1 stream view
-    order = [rel for rel, _ in ordered(files, 1)] if version == 1 else \
+    order = [rel for rel, _ in ordered(files, 1, v1_order)] if version == 1 else \
         [rel for rel, _ in ordered(files, version)]
     off = 0
     absent = []
@@ -203,7 +216,7 @@ def build(box, case):
     if case["source"] == "own":
         raw = impl.create(case["creator"], root, mpath, piece_length=pl)
     else:
-        order = ordered(files, version)
+        order = ordered(files, version, case.get("v1_order"))
         ref = refspec.ref_metafile(
             name, [((name,) if single else tuple(rel.split("/")), b.bytes()) for rel, b in order],
             pl, version, single=single, trailing_pad=(case["source"] != "ref-notrail"),
@@ -255,7 +268,8 @@ def percent(results):
 
 def nontrivial_damage(case):
     files = case["files"]
-    first = ordered([(r, cr.blob_from_token(t)) for r, t in files], case["version"])[0][0]
+    first = ordered([(r, cr.blob_from_token(t)) for r, t in files], case["version"],
+                    case.get("v1_order"))[0][0]
     for op in case["damage"]:
         if op[1] != first:
             return True
